@@ -17,6 +17,79 @@ NP, ND, NC, NN, NT = 4, 4, 2, 4, 4
 T8, U8, TE10, UE10, T16, U16, UE14, E12 = 0, 1, 2, 3, 4, 5, 6, 8
 
 
+# ---------------------------------------------------------------------------------------------------------------
+# the format language of vnadata_set_format / the "#:parameters" line of NPD files / vnadata_save: a comma separated list of
+# [parameter]form entries, parameter in S T U Z Y H G A B Zin or absent (completed from the type of the object), form in
+# ri ma dB, and the fixed names PRC PRL SRC SRL IL RL VSWR; case insensitive, white space allowed around the entries
+FMT_PARAMETERS = ["S", "T", "U", "Z", "Y", "H", "G", "A", "B", "Zin", ""]
+FMT_FORMS = ["ri", "ma", "dB"]
+FMT_FIXED = ["PRC", "PRL", "SRC", "SRL", "IL", "RL", "VSWR"]
+FMT_REFUSED = ["ZindB"]                      # the one combination the parser refuses ("no ZindB"); a bare "Zin" is accepted
+FMT_NAMES = [p + f for p in FMT_PARAMETERS for f in FMT_FORMS if p + f not in FMT_REFUSED] + ["Zin"] + FMT_FIXED
+FMT_LONGEST = [n for n in FMT_NAMES if len(n) == max(len(x) for x in FMT_NAMES)]
+
+
+def rnd_format(r, p_bad=0.08, untyped=0.15):
+    """a format list drawn from the whole grammar: 1..6 entries, every name x form, runs of the longest names, repeated and untyped
+    entries, mixed case and white space; with probability p_bad a malformed one (unknown name, empty entry, trailing comma)"""
+    n = r.choice([1, 1, 2, 2, 3, 3, 4, 5, 6, 6])
+    y = r.random()
+    if y < 0.30:
+        ent = [r.choice(FMT_LONGEST) for _ in range(n)]                      # only the longest names: the tightest fit of the string buffer
+    elif y < 0.45:
+        ent = [r.choice(FMT_LONGEST + FMT_LONGEST + FMT_NAMES) for _ in range(n)]
+    elif y < 0.45 + untyped:
+        ent = [r.choice(FMT_FORMS) for _ in range(n)]                        # untyped: completed from the object's type when saved
+    else:
+        ent = [r.choice(FMT_NAMES) for _ in range(n)]
+
+    def case(e):
+        c = r.random()
+        return e if c < 0.6 else e.lower() if c < 0.75 else e.upper() if c < 0.9 else "".join(ch.upper() if r.random() < 0.5 else ch.lower() for ch in e)
+    ent = [case(e) for e in ent]
+    if r.random() < p_bad:
+        b = r.random()
+        if b < 0.3:
+            ent[r.randrange(len(ent))] = r.choice(FMT_REFUSED + ["bogus", "Zinx", "Sr", "ZinriX", "Q", "ridB"])
+        elif b < 0.5:
+            ent.insert(r.randrange(len(ent) + 1), "")
+        elif b < 0.7:
+            return ",".join(ent) + ","
+        elif b < 0.85:
+            return ""
+        else:
+            return None
+    sep = r.choice([",", ",", ",", ", ", " ,", " , ", ",\t"])
+    lead = r.choice(["", "", "", " ", "\t"])
+    return lead + sep.join(ent) + r.choice(["", "", " "])
+
+
+def npd_text(r, fmt, ports=None, freqs=None):
+    """an NPD file whose '#:parameters' line is fmt; the data columns follow the entries as far as their widths are known"""
+    ports = ports if ports is not None else r.choice([1, 1, 2, 2, 3])
+    freqs = freqs if freqs is not None else r.choice([1, 2, 3])
+    cols = 0
+    for e in (fmt or "").split(","):
+        e = e.strip().lower()
+        if e in ("il",):
+            cols += ports * ports - ports
+        elif e in ("rl", "vswr"):
+            cols += ports
+        elif e in ("prc", "prl", "src", "srl") or e.startswith("zin"):
+            cols += 2 * ports
+        else:
+            cols += 2 * ports * ports
+    if r.random() < 0.1:
+        cols += r.choice([-1, 1])
+    z0 = " ".join("50 +0j" for _ in range(ports)) if r.random() < 0.85 else "PER-FREQUENCY"
+    head = "#NPD\n#:version 1.0\n#:ports %d\n#:frequencies %d\n#:parameters %s\n#:z0 %s\n#:fprecision 7\n#:dprecision 6\n#\n" % (ports, freqs, fmt or "", z0)
+    rows = []
+    for i in range(freqs):
+        pre = ("%de9" % (i + 1)) + (" " + " ".join("50 0" for _ in range(ports)) if z0 == "PER-FREQUENCY" else "")
+        rows.append(pre + "".join(" %.3g" % (0.1 * ((i + j) % 7) + 0.05) for j in range(max(cols, 0))))
+    return head + "\n".join(rows) + "\n"
+
+
 def enc(s):
     if s is None:
         return "-"
@@ -243,7 +316,7 @@ class Gen(object):
             return rnd_index(r, nfo, pb)
         x = r.random()
         if x < 0.30 and r.random() < 0.8:
-            self.emit("dsetfmt", o, enc(r.choice(["Sri", "SdB,Zma", "Sma,Zri", "zin", "IL,RL,VSWR", "Tri,Uma,Hri"])))
+            self.emit("dsetfmt", o, enc(r.choice(["Sri", "SdB,Zma", "Sma,Zri", "zin", "IL,RL,VSWR", "Tri,Uma,Hri"]) if r.random() < 0.3 else rnd_format(r, p_bad=0.0)))
         if x < 0.10:
             self.emit("dasetfmt", d, o)
         elif x < 0.20:
@@ -400,7 +473,29 @@ class Gen(object):
             if self.D[o] is not None:
                 self.D[o].update(rows=rows, cols=cols, freqs=nf)   # approximate
         elif x < 0.94:
-            self.emit("dsetfmt", d, enc(r.choice(["Sri", "SdB", "Sma,Zri", "zin", "PRC", "IL,RL,VSWR", "bogus", "", "Sri,", "S", "Tri,Uma,Hri", None])))
+            if r.random() < 0.25:
+                self.emit("dsetfmt", d, enc(r.choice(["Sri", "SdB", "Sma,Zri", "zin", "PRC", "IL,RL,VSWR", "bogus", "", "Sri,", "S", "Tri,Uma,Hri", None])))
+            else:
+                self.emit("dsetfmt", d, enc(rnd_format(r)))
+            y = r.random()
+            if y < 0.35:
+                # the format in use: saved as NPD (the '#:parameters' line is the canonical string) and loaded back
+                t = r.randrange(NT)
+                self.emit("dsave", d, t, "x.npd")
+                self.Ttxt[t] = "data:x.npd"
+                if r.random() < 0.6:
+                    self.emit("dload", r.randrange(ND), t, "x.npd")
+            elif y < 0.6:
+                # an input-impedance vector (type Zin) saved with a format of untyped entries: completed to Zinri / Zinma / ...
+                o = r.randrange(ND)
+                self.emit("dconv", d, o, 10)
+                self.emit("dsetfmt", o, enc(rnd_format(r, p_bad=0.0, untyped=0.6)))
+                t = r.randrange(NT)
+                self.emit(r.choice(["dsave", "dsave", "dcksave"]), o, t, r.choice(["x.npd", "x.npd", "x.txt"]))
+                self.Ttxt[t] = "data:x.npd"
+            elif y < 0.85:
+                # an NPD file written by hand: the '#:parameters' line takes the whole grammar, incl. mixed case and white space
+                self.emit("dloads", d, enc(npd_text(r, rnd_format(r, p_bad=0.05))), "y.npd")
         elif x < 0.96:
             self.emit(r.choice(["dsetft", "dsetfp", "dsetdp", "dgetprec", "dgetft", "dgetfmt"]), d, r.choice([0, 1, 2, 3, 6, 1000, -1, 4, 20]))
         elif x < 0.985:
